@@ -24,6 +24,15 @@ func vDecrypt(c *vCtx, d *Decryptor, ct *Ciphertext) *Plaintext {
 	return pt
 }
 
+// vNoiseBound: log2 bound used by the native runs.  With an auxiliary modulus or power-of-two digits the key-switch
+// noise is a few bits; with plain RNS digits and no P it is of the size of the largest prime (q_i * N * sigma).
+func vNoiseBound(c *vCtx, evkp EvaluationKeyParameters) int {
+	if c.Params.MaxLevelP() < 0 && (evkp.BaseTwoDecomposition == nil || *evkp.BaseTwoDecomposition == 0) {
+		return 58
+	}
+	return 40
+}
+
 func vKeySwitchCase(c *vCtx, evkp EvaluationKeyParameters, level int, tag string) {
 	params := c.Params
 	evk := c.Kgen.GenEvaluationKeyNew(c.Sk, c.Sk2, evkp)
@@ -34,7 +43,7 @@ func vKeySwitchCase(c *vCtx, evkp EvaluationKeyParameters, level int, tag string
 	vAssert(err == nil, tag+"-ApplyEvaluationKey-no-error")
 	got := vDecrypt(c, c.Dec2, out)
 	r := params.RingQ().AtLevel(level)
-	vAssertNoiseFree(r, got.Value, want.Value, params.NTTFlag(), 40, tag+"-key-switch-preserves-the-plaintext-up-to-noise")
+	vAssertNoiseFree(r, got.Value, want.Value, params.NTTFlag(), vNoiseBound(c, evkp), tag+"-key-switch-preserves-the-plaintext-up-to-noise")
 	vAssert(out.Level() == level && out.IsNTT == ct.IsNTT, tag+"-output-metadata")
 }
 
